@@ -491,6 +491,18 @@ def check(repo, rep):
         isCNT = P.field(cnt)
         budget = P.binop('-', isMS, isCNT)
         lr = cx.leaves(mod, '_Limiter.read')
+        # the counter may count what was delivered (budget - counter is left) or what is LEFT (refilled to the budget by the
+        # constructor and by rewind, decreased by read): decided from the direction of its updates in read
+        upd_ = [e[2] for l in lr for e in l.effects if e[0] == 'store' and e[1] == ('attr', ('self',), cnt)]
+        remaining_mode = bool(upd_) and all(u[0] == 'bin' and u[1] == '-' and isCNT(u[2]) for u in upd_)
+        if remaining_mode:
+            from .c19 import effective_stores
+            lcls_ = cx.cls(mod, '_Limiter')
+            refills = [effective_stores(cx, mod, lcls_, m_).get(cnt, []) for m_ in ('__init__', 'rewind')]
+            ms_defs_ = [d_['value'] for f_ in MS for d_ in ldefs[f_]]
+            if not all(r_ and (isMS(r_[-1]) or r_[-1] in ms_defs_) for r_ in refills):
+                rep.unknown('_Limiter.%s counts down, but the constructor / rewind do not visibly refill it to the sample budget (%s)' % (cnt, [[show(x)[:40] for x in r_] for r_ in refills]))
+            budget = isCNT
         nread = 0
         for l in lr:
             reads = [e for e in l.effects if e[0] == 'call' and e[1][0] == 'call' and e[1][1][0] == 'attr' and e[1][1][2] == 'read']
@@ -499,7 +511,7 @@ def check(repo, rep):
                 arg = e[1][2][0] if e[1][2] else None
                 ok = arg is not None and (P.call('min', budget, P.param('size'))(arg) or P.call('min', P.param('size'), budget)(arg))
                 if MS:
-                    expected = fcall('min', ('bin', '-', ('attr', ('self',), MS[0]), ('attr', ('self',), cnt)), ('p', 'size'))
+                    expected = fcall('min', ('attr', ('self',), cnt) if remaining_mode else ('bin', '-', ('attr', ('self',), MS[0]), ('attr', ('self',), cnt)), ('p', 'size'))
                     formula(rep, 'limiter never asks for more than min(budget - already read, requested size)', arg, expected, W(e[3]), '_Limiter.read:request', 'the inner request', pattern_ok=ok,
                             sample=dict(inner_request=show(arg)[:160]), conds=[(c_[0], c_[1]) for c_ in l.conds if c_[0][0] in ('cmp', 'not', 'and', 'or') and not any(t_ == e[1] for t_ in walk(c_[0]))])      # conditions on the read's own result come after the request
                 else:
@@ -516,7 +528,7 @@ def check(repo, rep):
                 okup = False
                 for u in ups:
                     v = u[2]
-                    if v[0] == 'bin' and v[1] == '+' and isCNT(v[2]):
+                    if v[0] == 'bin' and v[1] == ('-' if remaining_mode else '+') and isCNT(v[2]):
                         inc = v[3]
                         bps = P.Pat(lambda t: (t[0] == 'attr' and t[1] == ('self',) and t[2] in BPS) or P.prod(P.role('sample_width'), P.role('channels'))(t), 'bytes_per_sample')
                         if P.binop('//', P.call('len', P.same(l.value)), bps)(inc) or (reads and inc == reads[0][1][2][0]) or inc == ('p', 'size'):
